@@ -15,7 +15,17 @@ structure Cli where
   connected : Bool := false
   /-- handshake responses queued on the current socket -/
   hsq : List HResp := []
+  /-- auto reconnect: `.reconnectable`, `.tymeout` (0 = never), virtual tyme and the retry tymer (`_start`, `_stop`) -/
+  reconnectable : Bool := false
+  tymeout : Nat := 0
+  now : Nat := 0
+  tstart : Nat := 0
+  tstop : Nat := 0
 deriving Repr
+
+/-- a client constructed at tyme 0: its retry tymer runs from 0 for `tymeout` -/
+def Cli.make (tls reconnectable : Bool) (tymeout : Nat) : Cli :=
+  { tls := tls, reconnectable := reconnectable, tymeout := tymeout, tstop := tymeout }
 
 /-- `close`: `if self.cs: shutdown; cs.close(); cs = None; accepted = connected = opened = False` -/
 def Cli.close (c : Cli) : Cli :=
@@ -51,21 +61,36 @@ def Cli.handshake (c : Cli) : Cli × Option Exn :=
   | .ok :: rest => ({ c with hsq := rest, connected := true }, none)
   | .fault code :: rest => Cli.hsFault { c with hsq := rest } code
 
-/-- `serviceConnect` (not reconnectable): `if not connected: connect()` -/
-def Cli.serviceConnect (c : Cli) (rc : Nat) : Cli × Option Exn :=
-  if c.connected then (c, none)
-  else if !c.tls then (c.accept rc, none)
+/-- `connect()`: plain = `accept()`; TLS = accept, wrap, handshake -/
+def Cli.connect (c : Cli) (rc : Nat) : Cli × Option Exn :=
+  if !c.tls then (c.accept rc, none)
   else
     let c1 := if c.accepted then c else c.accept rc
     if c1.accepted ∧ !c1.connected then c1.handshake else (c1, none)
 
+/-- the retry tymer has run out: `self.tymeout > 0.0 and self.tymer.expired` -/
+def Cli.timedOut (c : Cli) : Bool := decide (0 < c.tymeout) && decide (c.tstop ≤ c.now)
+
+/-- `reopen(); tymer.restart()` (restart = same duration from the old stop) -/
+def Cli.retry (c : Cli) : Cli :=
+  { c.reopen with tstart := c.tstop, tstop := c.tstop + (c.tstop - c.tstart) }
+
+/-- `serviceConnect`: `if not connected: connect(); if not connected and reconnectable and timed out: reopen, restart tymer` -/
+def Cli.serviceConnect (c : Cli) (rc : Nat) : Cli × Option Exn :=
+  if c.connected then (c, none)
+  else match c.connect rc with
+    | (c1, some e) => (c1, some e)
+    | (c1, none) =>
+      if !c1.connected && c1.reconnectable && c1.timedOut then (c1.retry, none) else (c1, none)
+
 inductive COp where
-  | reopen | close | connect (rc : Nat) (hs : Option HResp)
+  | reopen | close | connect (rc : Nat) (hs : Option HResp) | tick (d : Nat)
 deriving Repr
 
 def Cli.step (c : Cli) : COp → Cli × Option Exn
   | .reopen => (c.reopen, none)
   | .close => (c.close, none)
+  | .tick d => ({ c with now := c.now + d }, none)
   | .connect rc hs =>
     let c := match hs, c.cs with
       | some h, some _ => { c with hsq := c.hsq ++ [h] }
